@@ -222,15 +222,37 @@ Definition reason_of (c : N) : bytes :=
 Inductive meth := GET | HEAD | POST.
 Inductive ver := V10 | V11.
 Inductive rbody := NoBody | BodyCL | BodyChunked.   (* request body framing *)
+(* transport: when do the response writes complete?  WSync: at once.  Otherwise the transport is
+   blocked when the request head arrives, and is unblocked either after the remainder of the request
+   (its body) has arrived and been drained (WAfterBody) or before that remainder arrives (WBeforeBody). *)
+Inductive wmode := WSync | WAfterBody | WBeforeBody.
 Record req := mkReq {
   q_meth : meth; q_ver : ver;
   q_conn : option bytes;        (* request Connection header value (stripped), if any *)
   q_inm : option bytes;         (* request If-None-Match header value, if any *)
   q_body : rbody;
   q_nka : bool;                 (* HTTPServer(no_keep_alive=True) *)
-  q_early : bool                (* the program runs in prepare() of a @stream_request_body handler,
+  q_early : bool;               (* the program runs in prepare() of a @stream_request_body handler,
                                    i.e. before the request body has been read *)
+  q_wmode : wmode               (* order of write completion and body arrival *)
 }.
+Definition has_body (q : req) : bool := match q_body q with NoBody => false | _ => true end.
+(* is the transport still blocked while the program's operations run / while the automatic finish
+   at the end of the handler method runs?  (a handler runs when the head arrived if it is early or
+   the request has no body, otherwise when the body arrived; the automatic finish of an early
+   handler happens after the body) *)
+Definition blocked_prog (q : req) : bool :=
+  match q_wmode q with
+  | WSync => false
+  | WAfterBody => true
+  | WBeforeBody => q_early q || negb (has_body q)
+  end.
+Definition blocked_auto (q : req) : bool :=
+  match q_wmode q with
+  | WSync => false
+  | WAfterBody => true
+  | WBeforeBody => negb (has_body q)
+  end.
 Definition is_head (q : req) := match q_meth q with HEAD => true | _ => false end.
 Definition is_v11 (q : req) := match q_ver q with V11 => true | V10 => false end.
 Definition is_v10 (q : req) := negb (is_v11 q).
@@ -321,23 +343,28 @@ Record st := mkSt {
   g_hdr_err : bool;             (* ghost: write_headers raised ValueError (unparsable Content-Length, illegal
                                    header name, CR/LF) after flush had set _headers_written *)
   g_early_fin : bool;           (* ghost: HTTP1Connection.finish ran while _read_finished was still False *)
-  g_out_err : bool              (* ghost: HTTPOutputError was raised (stream closed by the Content-Length guard) *)
+  g_out_err : bool;             (* ghost: HTTPOutputError was raised (stream closed by the Content-Length guard) *)
+  t_blocked : bool              (* the transport accepts nothing right now: what is handed to the stream stays in its
+                                   write buffer, and is discarded if the stream is closed meanwhile *)
 }.
-Definition set_status s v := mkSt v (h_hdrs s) (h_buf s) (h_hw s) (h_fin s) (c_chunking s) (c_rem s) (c_disc s) (c_closed s) (o_head s) (o_body s) (o_term s) (g_hdr_err s) (g_early_fin s) (g_out_err s).
-Definition set_hdrs s v := mkSt (h_status s) v (h_buf s) (h_hw s) (h_fin s) (c_chunking s) (c_rem s) (c_disc s) (c_closed s) (o_head s) (o_body s) (o_term s) (g_hdr_err s) (g_early_fin s) (g_out_err s).
-Definition set_buf s v := mkSt (h_status s) (h_hdrs s) v (h_hw s) (h_fin s) (c_chunking s) (c_rem s) (c_disc s) (c_closed s) (o_head s) (o_body s) (o_term s) (g_hdr_err s) (g_early_fin s) (g_out_err s).
-Definition set_hw s v := mkSt (h_status s) (h_hdrs s) (h_buf s) v (h_fin s) (c_chunking s) (c_rem s) (c_disc s) (c_closed s) (o_head s) (o_body s) (o_term s) (g_hdr_err s) (g_early_fin s) (g_out_err s).
-Definition set_fin s v := mkSt (h_status s) (h_hdrs s) (h_buf s) (h_hw s) v (c_chunking s) (c_rem s) (c_disc s) (c_closed s) (o_head s) (o_body s) (o_term s) (g_hdr_err s) (g_early_fin s) (g_out_err s).
-Definition set_chunking s v := mkSt (h_status s) (h_hdrs s) (h_buf s) (h_hw s) (h_fin s) v (c_rem s) (c_disc s) (c_closed s) (o_head s) (o_body s) (o_term s) (g_hdr_err s) (g_early_fin s) (g_out_err s).
-Definition set_rem s v := mkSt (h_status s) (h_hdrs s) (h_buf s) (h_hw s) (h_fin s) (c_chunking s) v (c_disc s) (c_closed s) (o_head s) (o_body s) (o_term s) (g_hdr_err s) (g_early_fin s) (g_out_err s).
-Definition set_disc s v := mkSt (h_status s) (h_hdrs s) (h_buf s) (h_hw s) (h_fin s) (c_chunking s) (c_rem s) v (c_closed s) (o_head s) (o_body s) (o_term s) (g_hdr_err s) (g_early_fin s) (g_out_err s).
-Definition set_closed s v := mkSt (h_status s) (h_hdrs s) (h_buf s) (h_hw s) (h_fin s) (c_chunking s) (c_rem s) (c_disc s) v (o_head s) (o_body s) (o_term s) (g_hdr_err s) (g_early_fin s) (g_out_err s).
-Definition set_head s v := mkSt (h_status s) (h_hdrs s) (h_buf s) (h_hw s) (h_fin s) (c_chunking s) (c_rem s) (c_disc s) (c_closed s) v (o_body s) (o_term s) (g_hdr_err s) (g_early_fin s) (g_out_err s).
-Definition set_body s v := mkSt (h_status s) (h_hdrs s) (h_buf s) (h_hw s) (h_fin s) (c_chunking s) (c_rem s) (c_disc s) (c_closed s) (o_head s) v (o_term s) (g_hdr_err s) (g_early_fin s) (g_out_err s).
-Definition set_term s v := mkSt (h_status s) (h_hdrs s) (h_buf s) (h_hw s) (h_fin s) (c_chunking s) (c_rem s) (c_disc s) (c_closed s) (o_head s) (o_body s) v (g_hdr_err s) (g_early_fin s) (g_out_err s).
-Definition set_hdr_err s v := mkSt (h_status s) (h_hdrs s) (h_buf s) (h_hw s) (h_fin s) (c_chunking s) (c_rem s) (c_disc s) (c_closed s) (o_head s) (o_body s) (o_term s) v (g_early_fin s) (g_out_err s).
-Definition set_early_fin s v := mkSt (h_status s) (h_hdrs s) (h_buf s) (h_hw s) (h_fin s) (c_chunking s) (c_rem s) (c_disc s) (c_closed s) (o_head s) (o_body s) (o_term s) (g_hdr_err s) v (g_out_err s).
-Definition set_out_err s v := mkSt (h_status s) (h_hdrs s) (h_buf s) (h_hw s) (h_fin s) (c_chunking s) (c_rem s) (c_disc s) (c_closed s) (o_head s) (o_body s) (o_term s) (g_hdr_err s) (g_early_fin s) v.
+Definition set_status s v := mkSt v (h_hdrs s) (h_buf s) (h_hw s) (h_fin s) (c_chunking s) (c_rem s) (c_disc s) (c_closed s) (o_head s) (o_body s) (o_term s) (g_hdr_err s) (g_early_fin s) (g_out_err s) (t_blocked s).
+Definition set_hdrs s v := mkSt (h_status s) v (h_buf s) (h_hw s) (h_fin s) (c_chunking s) (c_rem s) (c_disc s) (c_closed s) (o_head s) (o_body s) (o_term s) (g_hdr_err s) (g_early_fin s) (g_out_err s) (t_blocked s).
+Definition set_buf s v := mkSt (h_status s) (h_hdrs s) v (h_hw s) (h_fin s) (c_chunking s) (c_rem s) (c_disc s) (c_closed s) (o_head s) (o_body s) (o_term s) (g_hdr_err s) (g_early_fin s) (g_out_err s) (t_blocked s).
+Definition set_hw s v := mkSt (h_status s) (h_hdrs s) (h_buf s) v (h_fin s) (c_chunking s) (c_rem s) (c_disc s) (c_closed s) (o_head s) (o_body s) (o_term s) (g_hdr_err s) (g_early_fin s) (g_out_err s) (t_blocked s).
+Definition set_fin s v := mkSt (h_status s) (h_hdrs s) (h_buf s) (h_hw s) v (c_chunking s) (c_rem s) (c_disc s) (c_closed s) (o_head s) (o_body s) (o_term s) (g_hdr_err s) (g_early_fin s) (g_out_err s) (t_blocked s).
+Definition set_chunking s v := mkSt (h_status s) (h_hdrs s) (h_buf s) (h_hw s) (h_fin s) v (c_rem s) (c_disc s) (c_closed s) (o_head s) (o_body s) (o_term s) (g_hdr_err s) (g_early_fin s) (g_out_err s) (t_blocked s).
+Definition set_rem s v := mkSt (h_status s) (h_hdrs s) (h_buf s) (h_hw s) (h_fin s) (c_chunking s) v (c_disc s) (c_closed s) (o_head s) (o_body s) (o_term s) (g_hdr_err s) (g_early_fin s) (g_out_err s) (t_blocked s).
+Definition set_disc s v := mkSt (h_status s) (h_hdrs s) (h_buf s) (h_hw s) (h_fin s) (c_chunking s) (c_rem s) v (c_closed s) (o_head s) (o_body s) (o_term s) (g_hdr_err s) (g_early_fin s) (g_out_err s) (t_blocked s).
+Definition set_closed s v := mkSt (h_status s) (h_hdrs s) (h_buf s) (h_hw s) (h_fin s) (c_chunking s) (c_rem s) (c_disc s) v (o_head s) (o_body s) (o_term s) (g_hdr_err s) (g_early_fin s) (g_out_err s) (t_blocked s).
+Definition set_head s v := mkSt (h_status s) (h_hdrs s) (h_buf s) (h_hw s) (h_fin s) (c_chunking s) (c_rem s) (c_disc s) (c_closed s) v (o_body s) (o_term s) (g_hdr_err s) (g_early_fin s) (g_out_err s) (t_blocked s).
+Definition set_body s v := mkSt (h_status s) (h_hdrs s) (h_buf s) (h_hw s) (h_fin s) (c_chunking s) (c_rem s) (c_disc s) (c_closed s) (o_head s) v (o_term s) (g_hdr_err s) (g_early_fin s) (g_out_err s) (t_blocked s).
+Definition set_term s v := mkSt (h_status s) (h_hdrs s) (h_buf s) (h_hw s) (h_fin s) (c_chunking s) (c_rem s) (c_disc s) (c_closed s) (o_head s) (o_body s) v (g_hdr_err s) (g_early_fin s) (g_out_err s) (t_blocked s).
+Definition set_hdr_err s v := mkSt (h_status s) (h_hdrs s) (h_buf s) (h_hw s) (h_fin s) (c_chunking s) (c_rem s) (c_disc s) (c_closed s) (o_head s) (o_body s) (o_term s) v (g_early_fin s) (g_out_err s) (t_blocked s).
+Definition set_early_fin s v := mkSt (h_status s) (h_hdrs s) (h_buf s) (h_hw s) (h_fin s) (c_chunking s) (c_rem s) (c_disc s) (c_closed s) (o_head s) (o_body s) (o_term s) (g_hdr_err s) v (g_out_err s) (t_blocked s).
+Definition set_out_err s v := mkSt (h_status s) (h_hdrs s) (h_buf s) (h_hw s) (h_fin s) (c_chunking s) (c_rem s) (c_disc s) (c_closed s) (o_head s) (o_body s) (o_term s) (g_hdr_err s) (g_early_fin s) v (t_blocked s).
+Definition set_blocked s v := mkSt (h_status s) (h_hdrs s) (h_buf s) (h_hw s) (h_fin s) (c_chunking s) (c_rem s) (c_disc s) (c_closed s) (o_head s) (o_body s) (o_term s) (g_hdr_err s) (g_early_fin s) (g_out_err s) v.
+(* stream.close() while the transport is blocked: the unsent write buffer is discarded *)
+Definition drop_pending (s : st) : st := if t_blocked s then set_body (set_head s None) [] else s.
 
 (* environment: Server / Date default header values and the SHA-1 hex digest function *)
 Record env := mkEnv { e_server : bytes; e_date : bytes; e_sha : bytes -> bytes }.
@@ -346,7 +373,7 @@ Definition default_hdrs (e : env) : hdrs :=
   [(b "Server", [e_server e]); (K_CT, [b "text/html; charset=UTF-8"]); (b "Date", [e_date e])].
 
 Definition init (e : env) (q : req) : st :=
-  mkSt 200 (default_hdrs e) [] false false false None (negb (can_keep_alive q)) false None [] false false false false.
+  mkSt 200 (default_hdrs e) [] false false false None (negb (can_keep_alive q)) false None [] false false false false (blocked_prog q).
 
 (* every function below returns (state, raised?) : an exception leaves the mutations made so far *)
 
@@ -356,7 +383,7 @@ Definition fmt_check (s : st) (chunk : bytes) : st * bool :=
   | Some r =>
       let r' := (r - Z.of_nat (length chunk))%Z in
       let s := set_rem s (Some r') in
-      if (r' <? 0)%Z then (set_out_err (set_closed s true) true, true)      (* stream.close(); HTTPOutputError *)
+      if (r' <? 0)%Z then (set_out_err (set_closed (drop_pending s) true) true, true)   (* stream.close(); HTTPOutputError *)
       else (s, false)
   | None => (s, false)
   end.
@@ -427,11 +454,12 @@ Definition conn_write (s : st) (chunk : bytes) : st * bool :=
   else let '(s, raised) := fmt_check s chunk in
        if raised then (s, true) else (set_body s (o_body s ++ [chunk]), false).
 
-(* HTTP1Connection.finish followed by _finish_request (all writes complete at once on the
-   harness stream; the terminator is the bytes 0 CR LF CR LF).  [rf] = _read_finished at this moment. *)
+(* HTTP1Connection.finish followed by _finish_request (which runs when the last write completes; the
+   decision to close is taken here, in finish, so the completion order cannot change it; a close by
+   _finish_request happens after the write buffer drained; the terminator is the bytes 0 CR LF CR LF).  [rf] = _read_finished at this moment. *)
 Definition conn_finish (rf : bool) (s : st) : st * bool :=
   if (match c_rem s with Some r => negb (r =? 0)%Z | None => false end) && negb (c_closed s)
-  then (set_out_err (set_closed s true) true, true)         (* stream.close(); HTTPOutputError *)
+  then (set_out_err (set_closed (drop_pending s) true) true, true)   (* stream.close(); HTTPOutputError *)
   else
     let s := if c_chunking s && negb (c_closed s) then set_term s true else s in
     let s := if rf then s else set_early_fin (set_disc s true) true in
@@ -535,7 +563,8 @@ Fixpoint exec (e : env) (q : req) (ops : list op) (s : st) : st :=
   match ops with
   | [] =>
       if h_fin s then s
-      else let '(s', raised) := finish e q true s in
+      else let s := set_blocked s (blocked_auto q) in
+           let '(s', raised) := finish e q true s in
            if raised then on_exc e q true s' else s'
   | o :: t =>
       if h_fin s then s
